@@ -139,6 +139,8 @@ def check_log(res, ss, log, sched, t_reached, completed, tf, t_axis, u0):
         if e["type"] == "Fault":
             for nm, t in (("tf", e["tf"]), ("tc", e["tc"])):
                 exp.append(("Fault." + nm, e["id"], t, e))
+        elif e["type"] == "TimeSeries":
+            continue        # no timer parameter: decided on its writes below
         else:
             exp.append((e["type"] + ".t", e["id"], e["t"], e))
     fired = {}
@@ -173,7 +175,7 @@ def check_log(res, ss, log, sched, t_reached, completed, tf, t_axis, u0):
             continue
         if e["type"] == "Toggle" and in_range(e["t"]):
             expected_sets.append(("u", e["model"], e["dev"], e["t"], e))
-        elif e["type"] == "Alter" and in_range(e["t"]):
+        elif e["type"] in ("Alter", "TimeSeries") and in_range(e["t"]):
             expected_sets.append((e["src"], e["model"], e["dev"], e["t"], e))
     cb_sets = [s for s in log.sets if s["cb"] is not None]
     unmatched = list(cb_sets)
@@ -193,13 +195,26 @@ def check_log(res, ss, log, sched, t_reached, completed, tf, t_axis, u0):
         new = np.ravel(s["new"])[0]
         if e["type"] == "Toggle":
             want = 1 - old
+        elif e["type"] == "TimeSeries":
+            want = e["value"]
+            res.count("timeseries_updates_checked")
         else:
             a = e["amount"]
             want = {"+": old + a, "-": old - a, "*": old * a, "/": old / a, "=": a}[e["method"]]
         res.count("effects_checked")
-        if not (new == want or abs(new - want) <= 1e-14 * max(1.0, abs(want))):
+        if not (new == want or abs(new - want) <= 1e-13 * max(1.0, abs(want))):
             res.violate("event_wrong_value", "%s %s at t=%r: %s.%s of %r went %r -> %r, prescribed %r" % (
                 e["type"], e["id"], t, model, src, dev, old, new, want), event=e)
+    assign = {(src, str(dev), t): e["value"] for src, model, dev, t, e in expected_sets if e["type"] == "TimeSeries"}
+    for s in list(unmatched):
+        # a time-series update is an assignment: writing the prescribed value again at the same instant is the same
+        # effect (rows at t0 are applied by TimeSeries.init - where the load's own initialisation may overwrite them -
+        # and again by the dispatch of the events scheduled at the starting time)
+        key = (s["src"], str(s["idx"]), s["t"])
+        # (a spreadsheet keeps 15 significant digits of the prescribed number)
+        if key in assign and abs(np.ravel(s["new"])[0] - assign[key]) <= 1e-13 * max(1.0, abs(assign[key])):
+            unmatched.remove(s)
+            res.count("repeated_assignments_same_instant")
     for s in unmatched:
         res.violate("unscheduled_write", "write %s.%s[%r] %r -> %r at t=%r inside %s is not explained by any enabled in-range event" % (
             s["owner"], s["src"], s["idx"], s["old"], s["new"], s["t"], s["cb"]), set=s)
@@ -250,7 +265,8 @@ def check_log(res, ss, log, sched, t_reached, completed, tf, t_axis, u0):
     if len(t) > 1 and not np.all(np.diff(t) > 0):
         i = int(np.where(np.diff(t) <= 0)[0][0])
         res.violate("time_not_increasing", "stored stamps not strictly increasing: t[%d]=%r, t[%d]=%r" % (i, t[i], i + 1, t[i + 1]))
-    for kind, eid, te, e in exp:
+    ts_exp = [("TimeSeries", e["id"], e["t"], e) for e in sched if e["type"] == "TimeSeries"]
+    for kind, eid, te, e in exp + ts_exp:
         if e["u"] == 1 and 0.0 < te <= tf and decided(te) and len(t):
             if te not in t:
                 lo = t[t < te]
@@ -298,8 +314,29 @@ def run_case(spec):
                 if e["type"] != "Fault":
                     e["t"] = float(np.round(rng.uniform(10.0, 10.55), 4))       # times beyond 10 s
         add_schedule(ss, ev)
+        ts_rows = None
+        # (a load that an Alter also writes would make same-instant writes order-dependent: the property does not
+        #  define an order between different event models, so the generator keeps their targets apart)
+        alter_devs = set(str(d) for d in ss.Alter.dev.v)
+        ts_cands = [d for d in ss.PQ.idx.v if str(d) not in alter_devs]
+        if rng.random() < 0.4 and ts_cands:
+            # a generated time-series sheet driving two fields of one load
+            import pandas as pd
+            nrow = int(rng.integers(1, 6))
+            # (a spreadsheet keeps 15 significant digits: use times that survive that)
+            tt = sorted(set([float(np.round(draw_time(rng, tf, tstep), 6)) for _ in range(nrow)]))
+            ts_rows = [dict(t=float(t), c1=float(np.round(rng.uniform(0.1, 1.0), 6)), c2=float(np.round(rng.uniform(0.0, 0.5), 6))) for t in tt]
+            xl = os.path.join(sd, "series.xlsx")
+            pd.DataFrame(ts_rows).to_excel(xl, sheet_name="S1", index=False)
+            ts_dev = ts_cands[int(rng.integers(0, len(ts_cands)))]
+            ts_u = 0 if rng.random() < 0.15 else 1
+            ss.add("TimeSeries", dict(idx="TS1", mode=1, path=xl, sheet="S1", fields="c1,c2", tkey="t", model="PQ", dev=ts_dev, dests="Ppf,Qpf", u=ts_u))
         ss.setup()
         sched = read_schedule(ss)
+        if ts_rows is not None:
+            for r in ts_rows:
+                for fld, dest in (("c1", "Ppf"), ("c2", "Qpf")):
+                    sched.append(dict(type="TimeSeries", id="TS1", model="PQ", dev=ts_dev, src=dest, attr="v", value=r[fld], t=r["t"], u=ts_u))
         if any(e.get("rand") for e in sched):
             res.inconc("case uses random Alter amounts")
             return res
@@ -333,6 +370,8 @@ def run_case(spec):
         res.count("segments", len(segs))
         check_log(res, ss, log, sched, t_reached, completed, tf, t_axis, u0)
         res.sig = "%s|%r|%d|%s|%s" % (base, tstep, fixt, segs, [(e["type"], e.get("dev", e.get("bus")), e["t"], e["u"]) for e in sched])
+        if ts_rows is not None:
+            res.count("timeseries_schedules")
         res.nontrivial = res.obs.get("events_fired_ok", 0) >= 1
         res.sample = dict(base=base, tstep=tstep, fixt=fixt, segments=segs, completed=completed, t_reached=t_reached,
                           schedule=[dict(type=e["type"], t=e["t"], u=e["u"], target=e.get("dev", e.get("bus"))) for e in sched][:8],
